@@ -367,6 +367,10 @@ def _build_griddesc(spec, withcf):
 #   'no-tflag'                       the TFLAG variable is deleted: the file
 #                                    is timed by SDATE/STIME/TSTEP only (or
 #                                    by the CF time variable of griddesc_cf)
+#   'varlist-stripped'               VAR-LIST lost its trailing blanks
+#   'varlist-single-blank'           VAR-LIST holds the names separated by
+#                                    single blanks (read by the library
+#                                    through its str.split fallback)
 # For route 'disk' the state is applied before the file is saved.  The
 # decoded times of the source (getTimes) are the same in all three states.
 ADDED_NAME = 'ADDED_LATER'
@@ -374,13 +378,24 @@ ADDED_NAME = 'ADDED_LATER'
 
 @st.composite
 def preps(draw, spec=None):
-    k = draw(st.integers(0, 5))
+    k = draw(st.integers(0, 7))
     if k <= 1:
         return 'synced'
     if k <= 3:
         return ['var-added', draw(st.sampled_from(['create', 'copy'])),
                 ADDED_NAME]
-    return 'no-tflag'
+    if k <= 5:
+        return 'no-tflag'
+    if spec is not None and any(len(v) >= 16 for v in spec['vars']):
+        # a blank-separated / unpadded list cannot hold a 16-character name
+        # (it has no separator): such a list is not readable input
+        return 'synced'
+    return 'varlist-stripped' if k == 6 else 'varlist-single-blank'
+
+
+def listed_fields(varlist):
+    return [varlist[i:i + 16].strip() for i in range(0, len(varlist), 16)
+            if varlist[i:i + 16].strip()]
 
 
 def prep_kind(prep):
@@ -396,6 +411,13 @@ def prepare(f, spec, prep):
         return f
     if kind == 'no-tflag':
         del f.variables['TFLAG']
+        return f
+    if kind == 'varlist-stripped':
+        setattr(f, 'VAR-LIST', getattr(f, 'VAR-LIST').rstrip())
+        return f
+    if kind == 'varlist-single-blank':
+        setattr(f, 'VAR-LIST', ' '.join(listed_fields(getattr(f,
+                                                              'VAR-LIST'))))
         return f
     if kind == 'var-added':
         how, name = prep[1], prep[2]
